@@ -1,5 +1,5 @@
 CONSTANTS
-  PoolSel = "core"
+  PoolSel = "mini"
   ArgSel = "full"
   MaxLen = 2
   KeyMode = "ideal"
